@@ -53,7 +53,9 @@ func (lb *LeastActiveLoadBalance) Handler(ctx context.Context, request []byte, n
 		lb.rwlock.Unlock()
 	}
 
-	lb.rwlock.RLock()
+	// choosing and counting are one step: callers that arrive together must not choose
+	// from the same counts
+	lb.rwlock.Lock()
 	var leastActive int64
 	if len(lb.actives) > n {
 		leastActive = lb.actives[:n].Min()
@@ -65,7 +67,6 @@ func (lb *LeastActiveLoadBalance) Handler(ctx context.Context, request []byte, n
 			leastActiveIndexes = append(leastActiveIndexes, i)
 		}
 	}
-	lb.rwlock.RUnlock()
 
 	index := leastActiveIndexes[0]
 	count := len(leastActiveIndexes)
@@ -74,7 +75,6 @@ func (lb *LeastActiveLoadBalance) Handler(ctx context.Context, request []byte, n
 	}
 	clientContext.URL = urls[index]
 
-	lb.rwlock.Lock()
 	lb.actives[index]++
 	lb.rwlock.Unlock()
 
